@@ -538,6 +538,51 @@ def specials():
         return go
     out.append(("qcow2", "extension-walk-lengths-near-4GiB", qcow2_ext_walk, 400, 1))
 
+    def vhdx_self_parent(which):
+        def run(work):
+            from pathlib import Path
+            from dissect.hypervisor.disk.vhdx import VHDX
+            d = tempfile.mkdtemp(prefix="selfp-", dir=work)
+            names = {"self": ("c.vhdx", "c.vhdx"), "two-cycle": ("a.vhdx", "b.vhdx")}[which]
+            for k, nm in enumerate(dict.fromkeys(names)):
+                other = names[(k + 1) % len(names)] if which == "two-cycle" else nm
+                loc = {"parent_linkage": "{1}", "relative_path": ".\\" + other, "absolute_win32_path": (d.lstrip("/") + "/" + other).replace("/", "\\")}
+                vf, _ = enc_vhdx.build([(enc_vhdx.ST_NOT_PRESENT, None)], block_size=1 << 20, sector_size=512, disk_size=1 << 20, has_parent=True, locator=loc)
+                vf.materialise(os.path.join(d, nm))
+            return lambda: VHDX(Path(d) / names[0]).read(4096)
+        return run
+    out.append(("vhdx", "parent-locator-names-the-image-itself", vhdx_self_parent("self"), 2200, 4))
+    out.append(("vhdx", "two-images-name-each-other-as-parent", vhdx_self_parent("two-cycle"), 4400, 4))
+
+    def hyperv_entry_sizes(work):
+        # key table entries whose size fields step forward and then (as a signed number) back by the same amount, and sizes
+        # around 2^31 / 2^32 in general: the entry walk must not revisit an entry
+        b, F, T = base_hyperv()
+        e0 = next(f for f in F if f[0] == "e0.size")[1]
+        first = struct.unpack("<I", b[e0:e0 + 4])[0]
+        blobs = []
+        for delta in (first, 32, 40, 64, 21, 8):
+            for back in (delta, first, 32):
+                m = bytearray(b)
+                m[e0:e0 + 4] = struct.pack("<I", delta)
+                nxt = e0 - 2 + delta + 2          # size field of the entry that follows
+                if nxt + 4 <= len(m):
+                    m[nxt:nxt + 4] = struct.pack("<I", (1 << 32) - back)
+                    blobs.append(bytes(m))
+        for v in (0x80000000, 0xFFFFFFFF, 0xFFFFFFE0, 0x7FFFFFFF, 0xFFFFFFF8):
+            m = bytearray(b)
+            m[e0:e0 + 4] = struct.pack("<I", v)
+            blobs.append(bytes(m))
+
+        def go():
+            for blob in blobs:
+                try:
+                    read_hyperv(blob)
+                except Exception:  # noqa: BLE001
+                    pass
+        return go
+    out.append(("hyperv", "entry-sizes-that-step-back-as-signed-numbers", hyperv_entry_sizes, 600, 4))
+
     # text inputs cut at every character position / with every single delimiter removed: each parse must return or raise
     def text_cuts(text, parse, delims):
         def run(work):
@@ -785,8 +830,10 @@ def run(ctx):
         tasks.append(t)
     if not thorough:
         specials_t = [t for t in tasks if t["kind"] == "special"]
-        others = [t for t in tasks if t["kind"] != "special"]
-        tasks = specials_t + rng.sample(others, min(len(others), 900))
+        # the extreme classes of every field are always run; the rest of the catalogue is sampled
+        extreme = [t for t in tasks if t["kind"] == "field" and t["class"] in ("max", "signbit")]
+        others = [t for t in tasks if t["kind"] != "special" and t not in extreme]
+        tasks = specials_t + extreme + rng.sample(others, min(len(others), 600))
     for i, t in enumerate(tasks):
         t["tid"] = i + 1
     results = supervise(tasks)
